@@ -305,10 +305,6 @@ func (p *Proxy) Serve(l net.Listener) error {
 func (p *Proxy) handleLoop(conn net.Conn) {
 	start := time.Now()
 
-	// RemoteAddr may block (a PROXY protocol connection waits for its header),
-	// so it must not be evaluated in the accept loop.
-	log.Debug(context.TODO(), "accepted connection", "address", conn.RemoteAddr().String())
-
 	p.connsMu.Lock()
 	p.conns[conn] = struct{}{}
 	p.connsWg.Add(1)
@@ -324,6 +320,11 @@ func (p *Proxy) handleLoop(conn net.Conn) {
 	if p.closing() {
 		return
 	}
+
+	// RemoteAddr may block (a PROXY protocol connection waits for its header),
+	// so it must not be evaluated in the accept loop, and only once the
+	// connection is registered: Shutdown and Close have to see it.
+	log.Debug(context.TODO(), "accepted connection", "address", conn.RemoteAddr().String())
 
 	pc := newProxyConn(p, conn)
 
